@@ -196,12 +196,16 @@ def random_args(rng, tier, big=False):
 def kwargs_of(a):
     dt = a["fmt"]
     kw = dict(size=a["size"], dtype=bits.FLOAT[dt])
+    # the same request phrased in every way the API admits: flags as Python bool / numpy.bool_ / int, bounds as scalars of the
+    # dtype / Python floats (exact: every value of a binary format is a Python float) / 0-d arrays; chosen from the request itself
+    h = (a["size"] + (a["min"] or 0) + 3 * (a["max"] or 0) + sum(1 << i for i, k in enumerate(FLAGS) if a[k])) % 9
+    ff, bf = h % 3, h // 3
     for k in FLAGS:
-        kw[KW[k]] = bool(a[k])
-    if a["min"] is not None:
-        kw["min_value"] = bits.from_bits_int(a["min"], dt)
-    if a["max"] is not None:
-        kw["max_value"] = bits.from_bits_int(a["max"], dt)
+        kw[KW[k]] = bool(a[k]) if ff == 0 else numpy.bool_(bool(a[k])) if ff == 1 else int(bool(a[k]))
+    for name, key in (("min", "min_value"), ("max", "max_value")):
+        if a[name] is not None:
+            v = bits.from_bits_int(a[name], dt)
+            kw[key] = v if bf == 0 else float(v) if bf == 1 else numpy.array(v)
     return kw
 
 
@@ -252,6 +256,12 @@ class Recorder:
 
     def rs(self, a, ch=None):
         ch = ch or self.ch
+        if (a["size"] + (a["min"] or 0) + (a["max"] or 0)) % 5 == 0:      # (a function of the request: replays repeat it)
+            # history: the same request was made before and its caller overwrote the returned array in place -
+            # a result must never be shared with an earlier caller
+            _, r0 = call(self.utils.real_samples, **kwargs_of(a))
+            if isinstance(r0, numpy.ndarray) and r0.size and r0.flags.writeable:
+                r0.fill(numpy.nan)
         raised, r = call(self.utils.real_samples, **kwargs_of(a))
         ev = dict(id=len(self.events), op="rs")
         ev.update(arg_fields(a))
@@ -305,6 +315,8 @@ class Recorder:
                 return None
             if any(v is None for v in vals):
                 return "mixed"
+            if dimargs[0].get("shared"):
+                return vals[0]            # one scalar bound for all dimensions (the other way to phrase equal bounds)
             return vals[0] if len(vals) == 1 else tuple(vals)
 
         if kind == "pair":
@@ -580,10 +592,25 @@ def product_calls(rec, rng, tier, n):
             sizes = [rng.randint(6, 40 if big else 9) for _ in range(dims)]
         dimargs = []
         mode = rng.random()
+        shared = None
+        if mode >= 0.7 and kind != "complex":
+            # one pair of bounds shared by every dimension and passed as SCALARS; the bounds come from the shapes that matter
+            # for the 1-D generator: a zero of either sign, a subnormal, the smallest normal, ordinary values
+            m = rand_normal(rng, dt)
+            mnm = mn_mag(dt)
+            shared = rng.choice([
+                (pat(dt, 0, 0), pat(dt, 0, m)), (pat(dt, 1, 0), pat(dt, 0, m)), (pat(dt, 1, m), pat(dt, 1, 0)), (pat(dt, 1, m), pat(dt, 0, 0)),
+                (pat(dt, 0, 0), None), (None, pat(dt, 1, 0)), (None, pat(dt, 0, 0)), (pat(dt, 1, 0), None),
+                (pat(dt, 0, rng.randint(1, mnm - 1)), pat(dt, 0, m)), (pat(dt, 1, m), pat(dt, 0, rng.randint(1, mnm - 1))),
+                (pat(dt, 0, mnm), pat(dt, 0, mnm + m % 1000 + 1)), (pat(dt, 1, m), pat(dt, 0, m)), (pat(dt, 0, min(m, inf_mag(dt) - 3)), pat(dt, 0, min(m, inf_mag(dt) - 3) + 1)),
+            ])
         for d in range(dims):
             a = dict(fmt=dt, size=sizes[d], shape="prod", sz="prod", min=None, max=None)
             a.update(fl)
-            if mode < 0.4:
+            if shared is not None:
+                a["min"], a["max"] = shared
+                a["shared"] = True
+            elif mode < 0.4:
                 pass
             else:
                 # same-sign or well-separated bounds per dimension
